@@ -27,7 +27,7 @@ SEEDS = [("vanilla_header", None), ("tbc_header", "tbc-header"), ("wrath_header"
 def floors_for(feats):
     n = 2  # pin salt, pin grid seed
     if "srp-default-math" in feats:
-        n += 3 + 1  # three key kinds + randomize_data
+        n += 3 + 1 + 2  # three key kinds + randomize_data + refresh on every path / frame
     n += sum(2 for m, f in SEEDS if f is None or f in feats)  # default + new
     if "integrity" in feats:
         n += 1
@@ -80,6 +80,10 @@ def check(ctx, rep):
             if eff is not None:
                 ok, why = util.fresh(ctx, canon(ctx, se, eff))
             rep.check(ok, "fresh-source", "key::ReconnectData::randomize_data", "challenge refresh", why, "refresh does not overwrite the whole challenge with a fresh value: " + why, se.body.loc())
+        # the refresh happens after *every* attempt (accepted or not) and touches only the challenge
+        from rules import c05
+
+        c05.refresh_obligation(ctx, rep, None, "fresh-source", "fresh-source")
         # use sites: the API functions use those sources for the documented role
         uses = [
             ("server::SrpVerifier::into_proof", "key::PrivateKey::randomized", "server::SrpVerifier::with_specific_private_key", 1, "server private key b"),
